@@ -163,12 +163,19 @@ def pattern_templates(fn, ck=None):
     return out
 
 
+def regex_patterns(F, fn):
+    """[(template with %1.. for run-time pieces, [piece nodes], node)] for the regular expressions fn matches with, however they
+    are assembled (.arg chains, += pieces, both arms of an if, a helper that builds the expression)"""
+    from engine.strabs import regex_templates
+    return [(t, [a[1] for a in args], node) for t, args, node in regex_templates(F, fn)]
+
+
 def name_pattern(ck, S, fn, rid, date_is_class):
     """anchors / escaping / digit classes of the rotated-name patterns of `fn`"""
-    tpls = pattern_templates(fn)
+    tpls = regex_patterns(ck.facts, fn)
     tpls = [t for t in tpls if t[0].startswith("^") or "\\d" in t[0]]
     short = strip_tmpl(fn.name).split("::")[-1]
-    ck.require(len(tpls) == 2, "%s: expected two name patterns (with / without suffix), found %d" % (short, len(tpls)))
+    ck.require(len(tpls) >= 2, "%s: expected two name patterns (with / without suffix), found %d" % (short, len(tpls)))
     for t, args, n in tpls:
         anch = t.startswith("^") and t.endswith("$") and not t.endswith("\\$")
         ck.ob(rid, sitestr(fn, n), anch, "pattern %r is anchored at both ends" % t if anch else "pattern %r is not anchored: look-alike files match" % t, key="%s|pattern-anchors" % short)
@@ -249,7 +256,7 @@ def ordering(ck, S, victim_is_first):
         if vals and len(vals) == len(fnames):
             for nm, v in zip(fnames, vals):
                 srcs.setdefault(nm, []).append(v)
-    tpls = pattern_templates(fr)
+    tpls = regex_patterns(F, fr)
     grp_kind = {}
     for t, args, n in tpls:
         gs = regex_groups(t)
